@@ -20,6 +20,9 @@ import (
 
 type c08Plan struct {
 	Cmds []vfCmd `json:"cmds"`
+	// During[i] (op "" = none) is issued while Cmds[i] - a deploy whose new target answers its first probe
+	// only after 300 ms - is still waiting for that target to become healthy.
+	During []vfCmd `json:"during"`
 }
 
 var c08HostileMsgs = []string{
@@ -82,8 +85,27 @@ func c08Gen(t *rapid.T) c08Plan {
 			c = vfCmd{Op: "rollout-stop", Svc: svc}
 		}
 		c.Spec.Name = c.Svc
+		var during vfCmd
+		if c.Op == "deploy" && rapid.IntRange(0, 2).Draw(t, "overlap") == 0 {
+			c.Targets = []string{fmt.Sprintf("slow%d:80", i)}
+			switch rapid.SampledFrom([]string{"stop", "stop", "pause", "resume"}).Draw(t, "during") {
+			case "stop":
+				during = vfCmd{Op: "stop", Svc: svc, Msg: c08GenMsg(t)}
+			case "pause":
+				during = vfCmd{Op: "pause", Svc: svc, MaxPauseMs: 60000}
+			case "resume":
+				during = vfCmd{Op: "resume", Svc: svc}
+			}
+		}
 		m.apply(c)
+		if during.Op != "" {
+			m.apply(during)
+		}
 		p.Cmds = append(p.Cmds, c)
+		for len(p.During) < len(p.Cmds)-1 {
+			p.During = append(p.During, vfCmd{})
+		}
+		p.During = append(p.During, during)
 	}
 	return p
 }
@@ -157,8 +179,27 @@ func c08Run(t *testing.T, p c08Plan) (res vfResult) {
 				prev = s.State
 			}
 			want := m.apply(c)
-			got := vfExec(w, r, c)
+			var got vfCmdResult
 			ctx := fmt.Sprintf("step %d %s", i, c)
+			if i < len(p.During) && p.During[i].Op != "" {
+				d := p.During[i]
+				for _, tn := range c.Targets {
+					w.target(tn).setProbeScript([]vfProbeStep{{Kind: "slow", DelayMs: 300, Status: 200}}, vfProbeStep{Kind: "ok"})
+				}
+				pc := w.goCmd(func() error { got = vfExec(w, r, c); return nil })
+				synctest.Wait() // the deploy now waits for its target to become healthy
+				wantD := m.apply(d)
+				gotD := vfExec(w, r, d)
+				if gotD.Panicked != "" || !vfClassOK(wantD, vfErrClass(gotD.Err)) {
+					res.failf("wrong-result", "%s: overlapping command %s: result %q panic=%q, model accepts %v", ctx, d, vfErrClass(gotD.Err), gotD.Panicked, wantD)
+					return
+				}
+				<-pc.done
+				ctx += " overlapped by " + d.String()
+				res.label("command-during-deploy")
+			} else {
+				got = vfExec(w, r, c)
+			}
 			if got.Panicked != "" || !vfClassOK(want, vfErrClass(got.Err)) {
 				res.failf("wrong-result", "%s: result %q panic=%q, model accepts %v", ctx, vfErrClass(got.Err), got.Panicked, want)
 				return
